@@ -37,8 +37,13 @@ fn oversize(size: usize) -> ! {
     put(b" case=");
     let (p, l) = CASE_PTR.with(|c| c.get());
     if p != 0 {
-        let b = unsafe { std::slice::from_raw_parts(p as *const u8, l.min(4096)) };
-        for x in b { let h = [b"0123456789abcdef"[(x >> 4) as usize], b"0123456789abcdef"[(x & 15) as usize]]; put(&h) }
+        // (deep nesting chains are the inputs that overflow stacks: up to 400 000 bytes are reported, 64 per write)
+        let b = unsafe { std::slice::from_raw_parts(p as *const u8, l.min(400_000)) };
+        for chunk in b.chunks(64) {
+            let mut h = [0u8; 128];
+            for (i, x) in chunk.iter().enumerate() { h[2 * i] = b"0123456789abcdef"[(x >> 4) as usize]; h[2 * i + 1] = b"0123456789abcdef"[(x & 15) as usize] }
+            put(&h[.. 2 * chunk.len()])
+        }
     }
     put(b"\n");
     unsafe { libc::_exit(99) }
@@ -58,17 +63,27 @@ extern "C" fn on_fatal_signal(sig: libc::c_int) {
     put(b" case=");
     let (p, l) = CASE_PTR.with(|c| c.get());
     if p != 0 {
-        let b = unsafe { std::slice::from_raw_parts(p as *const u8, l.min(4096)) };
-        for x in b { let h = [b"0123456789abcdef"[(x >> 4) as usize], b"0123456789abcdef"[(x & 15) as usize]]; put(&h) }
+        // (deep nesting chains are the inputs that overflow stacks: up to 400 000 bytes are reported, 64 per write)
+        let b = unsafe { std::slice::from_raw_parts(p as *const u8, l.min(400_000)) };
+        for chunk in b.chunks(64) {
+            let mut h = [0u8; 128];
+            for (i, x) in chunk.iter().enumerate() { h[2 * i] = b"0123456789abcdef"[(x >> 4) as usize]; h[2 * i + 1] = b"0123456789abcdef"[(x & 15) as usize] }
+            put(&h[.. 2 * chunk.len()])
+        }
     }
     put(b"\n");
     unsafe { libc::_exit(98) }
 }
 
 pub fn install_signal_handlers() {
+    // SA_ONSTACK: a stack overflow can only be handled on the alternate signal stack (std gives every thread one)
     unsafe {
         for sig in [libc::SIGABRT, libc::SIGSEGV, libc::SIGBUS, libc::SIGILL] {
-            libc::signal(sig, on_fatal_signal as usize);
+            let mut sa: libc::sigaction = std::mem::zeroed();
+            sa.sa_sigaction = on_fatal_signal as usize;
+            sa.sa_flags = libc::SA_ONSTACK | libc::SA_NODEFER;
+            libc::sigemptyset(&mut sa.sa_mask);
+            libc::sigaction(sig, &sa, std::ptr::null_mut());
         }
     }
 }
@@ -102,6 +117,10 @@ pub fn set_case(name: &'static str, input: &[u8]) {
     CASE_PTR.with(|c| c.set((input.as_ptr() as usize, input.len())));
     CASE_NAME.with(|c| c.set((name.as_ptr() as usize, name.len())));
 }
+/// Registers the running case for the crash reporter until the guard is dropped.
+pub struct CaseGuard;
+impl Drop for CaseGuard { fn drop(&mut self) { clear_case() } }
+pub fn case_guard(name: &'static str, input: &[u8]) -> CaseGuard { set_case(name, input); CaseGuard }
 pub fn clear_case() { CASE_PTR.with(|c| c.set((0, 0))); CASE_NAME.with(|c| c.set((0, 0))); }
 
 // ---- drop-counting element ---------------------------------------------------------------
@@ -341,7 +360,7 @@ pub fn supervise<F: FnOnce()>(replay_sub: &str, child_main: F) -> ! {
         Some(code @ (98 | 99)) => {
             let marker = if code == 99 { "VERIF-OVERSIZE" } else { "VERIF-CRASH" };
             let kind = if code == 99 { "oversize" } else { "crash" };
-            let what = if code == 99 { "allocation request above 64 MiB" } else { "fatal signal (memory corruption)" };
+            let what = if code == 99 { "allocation request above 64 MiB" } else { "fatal signal (stack overflow or memory corruption)" };
             if let Some(line) = err.lines().find(|l| l.starts_with(marker)) {
                 let root = vcore::engine::verif_root();
                 let dir = root.join("replays");
